@@ -145,4 +145,138 @@ theorem emitDecls_ok_of_wellTyped (cfg : Cfg) (ss : Cog.IR.Schemas) (h : wellTyp
     emitDecls cfg ss = .ok (emitEnv cfg ss) := by
   simp [emitDecls, envCrash_of_wellTyped _ h]
 
+/-! ### whatever the checker accepts contains no placeholder -/
+
+mutual
+theorem tyPh_of_ok (env : Env) : ∀ t : GoTy, typeOk env t = true → tyPlaceholders t = []
+  | .prim _, _ => by simp [tyPlaceholders]
+  | .named _ _, _ => by simp [tyPlaceholders]
+  | .ptr t, h => by simp only [typeOk] at h; simpa [tyPlaceholders] using tyPh_of_ok env t h
+  | .slice t, h => by simp only [typeOk] at h; simpa [tyPlaceholders] using tyPh_of_ok env t h
+  | .map k v, h => by
+    simp only [typeOk, Bool.and_eq_true] at h
+    simp [tyPlaceholders, tyPh_of_ok env k h.1, tyPh_of_ok env v h.2]
+  | .struct fs, h => by
+    simp only [typeOk, Bool.and_eq_true] at h
+    simpa [tyPlaceholders] using fieldsPh_of_ok env fs h.2
+  | .placeholder _, h => by simp [typeOk] at h
+  | .crash _, h => by simp [typeOk] at h
+theorem fieldsPh_of_ok (env : Env) : ∀ fs : List GoField, fieldsOk env fs = true → fieldsPlaceholders fs = []
+  | [], _ => by simp [fieldsPlaceholders]
+  | f :: fs, h => by
+    simp only [fieldsOk, Bool.and_eq_true] at h
+    simp [fieldsPlaceholders, tyPh_of_ok env f.ty h.1, fieldsPh_of_ok env fs h.2]
+end
+
+mutual
+theorem exprPh_of_ok (env : Env) (fuel : Nat) : ∀ e : GoExpr, (∀ w, exprTy env fuel e ≠ .bad w) → exprPlaceholders e = []
+  | .nil, _ => by simp [exprPlaceholders]
+  | .bool _, _ => by simp [exprPlaceholders]
+  | .int _ _, _ => by simp [exprPlaceholders]
+  | .float _, _ => by simp [exprPlaceholders]
+  | .str _, _ => by simp [exprPlaceholders]
+  | .ident _ _, _ => by simp [exprPlaceholders]
+  | .call _ _, _ => by simp [exprPlaceholders]
+  | .raw _, _ => by simp [exprPlaceholders]
+  | .crash _, _ => by simp [exprPlaceholders]
+  | .placeholder s, h => by exact absurd (by simp [exprTy]) (h "placeholder")
+  | .sliceLit t xs, h => by
+    by_cases hc : (typeOk env t && exprsFit env fuel t xs) = true
+    · simp only [Bool.and_eq_true] at hc
+      simp [exprPlaceholders, tyPh_of_ok env t hc.1, exprsPh_of_fit env fuel t xs hc.2]
+    · exact absurd (by simp [exprTy, hc]) (h "slice literal")
+  | .mapLit k v kvs, h => by
+    by_cases hc : (typeOk env k && typeOk env v && kvsFit env fuel v kvs) = true
+    · simp only [Bool.and_eq_true] at hc
+      simp [exprPlaceholders, tyPh_of_ok env k hc.1.1, tyPh_of_ok env v hc.1.2, kvsPh_of_fit env fuel v kvs hc.2]
+    · exact absurd (by simp [exprTy, hc]) (h "map literal")
+  | .deref e, h => by
+    have : ∀ w, exprTy env fuel e ≠ .bad w := by
+      intro w hw
+      exact h "deref of a non-pointer" (by simp [exprTy, hw])
+    simpa [exprPlaceholders] using exprPh_of_ok env fuel e this
+  | .addr e, h => by
+    have : ∀ w, exprTy env fuel e ≠ .bad w := by
+      intro w hw
+      exact h "address of an untyped value" (by simp [exprTy, hw])
+    simpa [exprPlaceholders] using exprPh_of_ok env fuel e this
+  | .toPtr t e, h => by
+    by_cases hc : (typeOk env t && assignable env fuel (exprTy env fuel e) t) = true
+    · simp only [Bool.and_eq_true] at hc
+      simp [exprPlaceholders, tyPh_of_ok env t hc.1, exprPh_of_ok env fuel e (assignable_notBad hc.2)]
+    · exact absurd (by simp [exprTy, hc]) (h "pointer helper argument")
+  | .composite t fs, h => by
+    cases hu : under env fuel (norm env fuel t) with
+    | none => exact absurd (by simp [exprTy, hu]) (h "composite literal of a non-struct type")
+    | some u =>
+      cases u with
+      | struct sfs =>
+        by_cases hc : (isNamed t && nodupB (fs.map (·.1)) && fieldsFit env fuel sfs fs) = true
+        · simp only [Bool.and_eq_true] at hc
+          have ht : tyPlaceholders t = [] := by cases t <;> simp [isNamed] at hc <;> simp [tyPlaceholders]
+          simp [exprPlaceholders, ht, kvsPh_of_fields env fuel sfs fs hc.2]
+        · exact absurd (by simp [exprTy, hu, hc]) (h "struct literal")
+      | _ => exact absurd (by simp [exprTy, hu]) (h "composite literal of a non-struct type")
+theorem exprsPh_of_fit (env : Env) (fuel : Nat) (t : GoTy) : ∀ xs : List GoExpr, exprsFit env fuel t xs = true → exprsPlaceholders xs = []
+  | [], _ => by simp [exprsPlaceholders]
+  | e :: es, h => by
+    simp only [exprsFit, Bool.and_eq_true] at h
+    simp [exprsPlaceholders, exprPh_of_ok env fuel e (assignable_notBad h.1), exprsPh_of_fit env fuel t es h.2]
+theorem kvsPh_of_fit (env : Env) (fuel : Nat) (t : GoTy) : ∀ kvs : List (String × GoExpr), kvsFit env fuel t kvs = true → kvsPlaceholders kvs = []
+  | [], _ => by simp [kvsPlaceholders]
+  | (k, e) :: es, h => by
+    simp only [kvsFit, Bool.and_eq_true] at h
+    simp [kvsPlaceholders, exprPh_of_ok env fuel e (assignable_notBad h.1), kvsPh_of_fit env fuel t es h.2]
+theorem kvsPh_of_fields (env : Env) (fuel : Nat) (sfs : List GoField) : ∀ kvs : List (String × GoExpr),
+    fieldsFit env fuel sfs kvs = true → kvsPlaceholders kvs = []
+  | [], _ => by simp [kvsPlaceholders]
+  | (k, e) :: es, h => by
+    simp only [fieldsFit, Bool.and_eq_true] at h
+    have he : ∀ w, exprTy env fuel e ≠ .bad w := by
+      cases hf : findGoField k sfs with
+      | none => simp [hf] at h
+      | some f => simp only [hf] at h; exact assignable_notBad h.1
+    simp [kvsPlaceholders, exprPh_of_ok env fuel e he, kvsPh_of_fields env fuel sfs es h.2]
+end
+
+theorem exprPh_of_lit : ∀ v : GoExpr, (litETy v).isSome = true → exprPlaceholders v = [] := by
+  intro v h
+  cases v <;> simp [litETy] at h <;> simp [exprPlaceholders]
+
+theorem membersPh_of_ok (env : Env) (fuel : Nat) (u : GoTy) : ∀ ms : List (String × GoExpr),
+    membersOk env fuel u ms = true → kvsPlaceholders ms = []
+  | [], _ => by simp [kvsPlaceholders]
+  | (n, v) :: ms, h => by
+    simp only [membersOk, Bool.and_eq_true] at h
+    simp [kvsPlaceholders, exprPh_of_lit v h.1.1, membersPh_of_ok env fuel u ms h.2]
+
+theorem declPh_of_ok (env : Env) (fuel : Nat) (pkg : String) : ∀ d : GoDecl, declOk env fuel pkg d = true → declPlaceholders d = []
+  | .typeDef _ t, h => by simpa [declPlaceholders] using tyPh_of_ok env t (by simpa [declOk] using h)
+  | .alias _ t, h => by simpa [declPlaceholders] using tyPh_of_ok env t (by simpa [declOk] using h)
+  | .const _ v, h => by simpa [declPlaceholders] using exprPh_of_lit v (by simpa [declOk] using h)
+  | .enumDef _ u ms, h => by
+    simp only [declOk, Bool.and_eq_true] at h
+    simp [declPlaceholders, tyPh_of_ok env u h.1.1, membersPh_of_ok env fuel u ms h.2]
+  | .ctor _ _ b, h => by
+    simp only [declOk] at h
+    simpa [declPlaceholders] using exprPh_of_ok env fuel b (assignable_notBad h)
+  | .placeholder _, h => by simp [declOk] at h
+  | .crash _, h => by simp [declOk] at h
+
+theorem declsPh_of_ok (env : Env) (fuel : Nat) (pkg : String) : ∀ ds : List GoDecl, declsOk env fuel pkg ds = true → declsPlaceholders ds = []
+  | [], _ => by simp [declsPlaceholders]
+  | d :: ds, h => by
+    simp only [declsOk, Bool.and_eq_true] at h
+    simp [declsPlaceholders, declPh_of_ok env fuel pkg d h.1, declsPh_of_ok env fuel pkg ds h.2]
+
+theorem envPh_of_pkgsOk (full : Env) (fuel : Nat) : ∀ env : Env, pkgsOk full fuel env = true → envPlaceholders env = []
+  | [], _ => by simp [envPlaceholders]
+  | (p, ds) :: rest, h => by
+    simp only [pkgsOk, Bool.and_eq_true] at h
+    simp [envPlaceholders, declsPh_of_ok full fuel p ds h.1.2, envPh_of_pkgsOk full fuel rest h.2]
+
+/-- an accepted environment contains no placeholder -/
+theorem noPlaceholder_of_wellTyped (env : Env) (h : wellTyped env = true) : envPlaceholders env = [] :=
+  envPh_of_pkgsOk env (checkFuel env) env h
+
 end Cog.Sem.GoDecl
